@@ -34,8 +34,8 @@ CLAIMS = {
           "Coq proof (handler model) + bit-exact correspondence incl. every Brent iterate", "3/C08", True),
  "C09": C("Coq theorems: (any number type, event functions, interpolant, refinement outcome; no terminal event) in every accepted step exactly one event of function i is recorded when the direction-aware sign test fires on g_i at the two step ends and none otherwise, and the values remembered for the next step are the current ones; (real semantics) strictly opposite signs are always detected by All and by the matching one-sided filter only, equal strict signs never. Location of the event at the root of a single-root function is checked on grid-aware placements (replay + oracle)." + TIE,
           "Coq proof of the detection pass (count invariant) and of the detection predicate + bit-exact correspondence", "3/C09", True),
- "C10": C("Coq theorems (any number type): a terminal event makes the newest sample the event point, the handler returns Interrupt iff a terminal event fired and never without a terminal configuration." + TIE,
-          "Coq proof (handler model) + bit-exact correspondence", "3/C10", True),
+ "C10": C("Coq theorems (any number type, event functions, interpolants): a terminal event makes the newest sample the event point; the handler returns Interrupt iff a terminal event fired and never without a terminal configuration; until a callback answers Interrupt the handler computes exactly the same state under the configuration with all terminal flags cleared (prefix equality with the non-terminal run; the solver's steps coincide by C12); after an Interrupt no solver makes any further step, evaluation or callback (C19, all six solvers). Not a theorem: that events of the terminal step located before the terminal one are kept and later ones dropped in floating point ties -- replay + oracle (terminal placements, several functions in one step, counts 1..3)." + TIE,
+          "Coq proof (handler model: terminal branch, prefix equality) + bit-exact correspondence", "3/C10", True),
  "C11": C("Coq theorems: step-budget count (nstep <= max_steps+1; NeedLargerNMax only when the budget is used up) and budget-independence of an iteration below the budget, i.e. bit-identical prefix (DOPRI5, DOP853, RK23, Radau, BDF; any number type, kernel, callback); max_step bound with the 1% landing stretch (DOPRI5, DOP853; RK23 without stretch; real semantics, any kernel); RK4 uses exactly the given step. Not theorems: max_step / first_step for Radau and BDF, the automatic initial step." + TIE,
           "Coq proof of skeleton invariants (symbolic execution of each loop iteration) + bit-exact correspondence", "3/C11", True),
  "C12": C("Coq theorems: the default handler is passive unless an event is terminal; for ALL SIX solvers two passive observers (any callbacks that return Continue and leave the state alone) see literally the same solver run -- accepted steps, states, step sizes, flags, factorisations, statistics, evaluation logs, status (any number type, kernel / right-hand side / Jacobian / mass; RK23, RK4, Radau, BDF by erasure of the observer's data)." + TIE,
